@@ -105,10 +105,11 @@ type ContractFile struct {
 	Funcs   []*FuncContract
 	Specs   []*SpecFunc
 	Globals []*Clause
+	Axioms  []*Clause
 	Imports map[string]string
 }
 
-var clauseKeywords = map[string]bool{"func": true, "spec": true, "lemma": true, "global": true, "import": true,
+var clauseKeywords = map[string]bool{"func": true, "spec": true, "lemma": true, "global": true, "import": true, "axiom": true,
 	"pure": true, "requires": true, "ensures": true, "modifies": true, "let": true, "letpost": true, "loop": true, "trusted": true,
 	"use": true, "panics": true}
 
@@ -191,6 +192,19 @@ func parseContractText(path, pkgPath, text string) (*ContractFile, error) {
 			}
 			sf.PkgPath, sf.File, sf.Line = pkgPath, path, rc.line
 			cf.Specs = append(cf.Specs, sf)
+			cur = nil
+		case "axiom":
+			lab, etxt := splitLabel(rest)
+			reason := ""
+			if i := strings.LastIndex(etxt, " -- "); i > 0 {
+				reason = strings.TrimSpace(etxt[i+4:])
+				etxt = strings.TrimSpace(etxt[:i])
+			}
+			e, err := parseExpr(etxt)
+			if err != nil {
+				return nil, fail(err)
+			}
+			cf.Axioms = append(cf.Axioms, &Clause{Kind: "axiom", Label: lab, Text: etxt + " -- " + reason, E: e})
 			cur = nil
 		case "global":
 			_, r2 := splitKeyword(rest) // "invariant"
